@@ -5,6 +5,11 @@ import Qentem.Proofs.NumToStrInt
 import Qentem.Proofs.NumToStrBits
 import Qentem.Proofs.NumToStrAppend
 import Qentem.Proofs.NumToStrIntClass
+import Qentem.Proofs.NumToStrExact
+import Qentem.Proofs.NumToStrIntClass32
+import Qentem.Proofs.NumToStrLayout
+import Qentem.Proofs.NumToStrDefault
+import Qentem.Proofs.NumToStrDefaultRound
 /-! C10 — number to text equals the reference formatting for every value and precision.
 
 Model: `Qentem.NumToStr` (transcription of `Digit.hpp`), reference: `Qentem.FmtSpec` (ISO C
@@ -187,11 +192,120 @@ theorem format_eq_spec_integers (pre : List Nat) (bits p f : Nat) (hp : p ≤ 10
   obtain ⟨j, hj⟩ := h
   exact Qentem.Proofs.NumToStr.int_class64 pre bits p f j hf hp hj
 
+/-- integer-valued floats: `2^23 + f = 2^j · odd` with `23 - j ≤ e - 127`; every float of magnitude ≥ 2^23 is one -/
+def IntegerValued32 (bits : Nat) : Prop :=
+  ∃ j, Qentem.Proofs.NumToStr.F32.IntValued32 ((bits / 2 ^ 23) % 2 ^ 8) (bits % 2 ^ 23) j
+
+theorem integer_valued_of_big32 (bits : Nat) (h1 : 150 ≤ (bits / 2 ^ 23) % 2 ^ 8) (h2 : (bits / 2 ^ 23) % 2 ^ 8 < 255) :
+    IntegerValued32 bits :=
+  Qentem.Proofs.NumToStr.F32.intValued_of_big h1 h2 (Nat.mod_lt _ (Nat.two_pow_pos 23))
+
+/-- `format_eq_spec_integers32`: every integer-valued float (all |x| ≥ 2^23 and all integers), Fixed and
+SemiFixed, any precision, any stream contents: exactly the reference text. -/
+theorem format_eq_spec_integers32 (pre : List Nat) (bits p f : Nat) (hp : p ≤ 1048576) (hf : f = 1 ∨ f = 2)
+    (h : IntegerValued32 bits) :
+    realToString f32 pre bits p f = .ok (pre ++ FmtSpec.format32 bits p (specFmt f)) := by
+  obtain ⟨j, hj⟩ := h
+  exact Qentem.Proofs.NumToStr.F32.int_class32 pre bits p f j hf hp hj
+
+example : IntegerValued32 0x4B800000 := integer_valued_of_big32 _ (by decide) (by decide)   -- 2^24
+
 /-- non-vacuity: 1e21 (= 0x444B1AE4D6E2EF50) and 3.0 are integer-valued; 0.5 is not -/
 example : IntegerValued64 0x444B1AE4D6E2EF50 := integer_valued_of_big _ (by decide) (by decide)
 example : IntegerValued64 0x4008000000000000 := ⟨51, by constructor <;> decide⟩
 example : realToString f64 [] 0x444B1AE4D6E2EF50 2 fmtFixed =
     .ok [49,48,48,48,48,48,48,48,48,48,48,48,48,48,48,48,48,48,48,48,48,48,46,48,48] := by decide +kernel  -- 1000000000000000000000.00
+
+/-! ### the digit run is exact (whole real path) -/
+
+/-- **`digits_exact_or_sticky`** — doubles.  For every finite non-zero bit pattern, every format and every
+precision ≤ 40, the model's digit run (`bigIntDropDigits`, the ×5^27 loop with its mid-loop shifts, the
+checked BigInt width) returns **without fault** a BigInt `b` with
+`b = ⌊v · 10^fl / 10^d⌋` for the exact value `v = num/den` the reference decodes (`fl` = the fraction
+length handed to the formatter, `d` = number of integer digits dropped; one of them is 0), and
+`round_up = true ↔` the cut-off part is non-zero.  So the digit string the formatter receives is the exact
+decimal expansion of the binary value truncated at a known place, plus a correct sticky flag: after this,
+`FormatEqSpec` is a statement about the string-level formatter alone. -/
+theorem digits_exact_or_sticky (bits p fmt : Nat) (hp : p ≤ 40)
+    (hfin : (bits / 2 ^ 52) % 2 ^ 11 ≠ 2 ^ 11 - 1)
+    (hnz : (bits / 2 ^ 52) % 2 ^ 11 ≠ 0 ∨ bits % 2 ^ 52 ≠ 0) :
+    ∃ b digits fl pos ru d num den,
+      digitRun f64 (bits % 2 ^ 52) ((bits / 2 ^ 52) % 2 ^ 11 * 2 ^ 52) p fmt = .ok (b, digits, fl, pos, ru) ∧
+      FmtSpec.decode64 bits = .fin (decide ((bits / 2 ^ 63) % 2 = 1)) num den ∧ 0 < den ∧
+      (fl = 0 ∨ d = 0) ∧
+      b = num * 10 ^ fl / (den * 10 ^ d) ∧
+      (ru = true ↔ (num * 10 ^ fl) % (den * 10 ^ d) ≠ 0) :=
+  Qentem.Proofs.NumToStr.digitRun_exact (X := 11) Qentem.Proofs.NumToStr.shape64 (by decide) (by decide)
+    bits p fmt hp hfin hnz
+
+/-- the same for floats -/
+theorem digits_exact_or_sticky32 (bits p fmt : Nat) (hp : p ≤ 40)
+    (hfin : (bits / 2 ^ 23) % 2 ^ 8 ≠ 2 ^ 8 - 1)
+    (hnz : (bits / 2 ^ 23) % 2 ^ 8 ≠ 0 ∨ bits % 2 ^ 23 ≠ 0) :
+    ∃ b digits fl pos ru d num den,
+      digitRun f32 (bits % 2 ^ 23) ((bits / 2 ^ 23) % 2 ^ 8 * 2 ^ 23) p fmt = .ok (b, digits, fl, pos, ru) ∧
+      FmtSpec.decode32 bits = .fin (decide ((bits / 2 ^ 31) % 2 = 1)) num den ∧ 0 < den ∧
+      (fl = 0 ∨ d = 0) ∧
+      b = num * 10 ^ fl / (den * 10 ^ d) ∧
+      (ru = true ↔ (num * 10 ^ fl) % (den * 10 ^ d) ≠ 0) :=
+  Qentem.Proofs.NumToStr.digitRun_exact (X := 8) Qentem.Proofs.NumToStr.shape32 (by decide) (by decide)
+    bits p fmt hp hfin hnz
+
+/-- non-vacuity: 0.1 at 17 digits — the run is ⌊0.1·10^20⌋ = 10000000000000000555 (20 fractional digits), sticky -/
+example : digitRun f64 (0x3FB999999999999A % 2 ^ 52) ((0x3FB999999999999A / 2 ^ 52) % 2 ^ 11 * 2 ^ 52) 17 0 =
+    .ok (10000000000000000555, 2, 20, false, true) := by decide +kernel
+
+/-- `format_eq_spec_integers_default`: Default format (`%.{p}g`), every integer-valued double whose decimal
+numeral has at most `P` digits (`P` = precision, 1 for precision 0): the plain numeral, no exponent form,
+exactly as printf.  (Integers with more digits than the precision need the rounding step: open.) -/
+theorem format_eq_spec_integers_default (pre : List Nat) (bits p : Nat) (hp : p ≤ 1048576) (j : Nat)
+    (h : IntValued64 ((bits / 2 ^ 52) % 2 ^ 11) (bits % 2 ^ 52) j)
+    (hl : ((Nat.toDigits 10 (Qentem.Proofs.NumToStr.intValue64 ((bits / 2 ^ 52) % 2 ^ 11) (bits % 2 ^ 52))).map Char.toNat).length
+        ≤ (if p = 0 then 1 else p)) :
+    realToString f64 pre bits p fmtDefault = .ok (pre ++ FmtSpec.format64 bits p (specFmt fmtDefault)) :=
+  Qentem.Proofs.NumToStr.default_small_int64 pre bits p j h hl hp
+
+/-- `format_eq_spec_integers_default_all`: **Default format (`%.{p}g`) for every integer-valued double**, in
+particular every |x| ≥ 2^52, precision ≤ 40.  With at most `P` digits the plain numeral is printed; with more,
+the value is rounded half-even to `P` significant digits — rounding digit against '5', sticky lower digits
+(including the digits the BigInt pipeline dropped), tie to even, carry over nines, carry out of the top digit —
+and printed as `d.ddde+XX` with trailing zeros removed: exactly the reference. -/
+theorem format_eq_spec_integers_default_all (pre : List Nat) (bits p : Nat) (hp : p ≤ 40) (h : IntegerValued64 bits) :
+    realToString f64 pre bits p fmtDefault = .ok (pre ++ FmtSpec.format64 bits p (specFmt fmtDefault)) := by
+  obtain ⟨j, hj⟩ := h
+  by_cases hl : (Qentem.Proofs.NumToStr.D (Qentem.Proofs.NumToStr.intValue64 ((bits / 2 ^ 52) % 2 ^ 11) (bits % 2 ^ 52))).length
+      ≤ (if p = 0 then 1 else p)
+  · exact Qentem.Proofs.NumToStr.default_small_int64 pre bits p j hj hl (by omega)
+  · exact Qentem.Proofs.NumToStr.default_big_int64 pre bits p j hp hj (by omega)
+
+/-- tests (kernel evaluation): 2^70 at 5 digits; 9.999999e22-ish carry; 250 at 1 digit (tie to even) -/
+example : realToString f64 [] 0x4450000000000000 5 fmtDefault = .ok [49, 46, 49, 56, 48, 54, 101, 43, 50, 49] := by
+  decide +kernel   -- 1.1806e+21
+example : realToString f64 [] 0x406F400000000000 1 fmtDefault = .ok [50, 101, 43, 48, 50] := by decide +kernel  -- 2e+02
+
+/-- the digit estimate of `realToString` is exactly the number of decimal digits of `2^e`, for every binary
+exponent a double or float can have -/
+theorem digit_estimate_exact : ∀ e, e ≤ 1130 →
+    10 ^ (e * 30103 / 100000) ≤ 2 ^ e ∧ 2 ^ e < 10 ^ (e * 30103 / 100000 + 1) :=
+  Qentem.Proofs.NumToStr.est_table
+
+/-- number of binary fraction digits of a double (`0` for integers): `52 - ctz(mantissa) ∓ exponent` -/
+abbrev fracBits64 (bits : Nat) : Nat :=
+  Qentem.Proofs.NumToStr.fracBits 52 1023 (bits % 2 ^ 52) ((bits / 2 ^ 52) % 2 ^ 11)
+
+/-- `format_eq_spec_short_fractions`: every double `k · 2^-j` whose binary fraction has `j` digits with
+`0 < j ≤ precision ≤ 40` (any magnitude, e.g. 0.5, 0.375, -1234.5625, 2^-40): its decimal expansion is
+finite with `j` digits, the BigInt pipeline yields exactly those digits (no rounding takes place), and
+Fixed and SemiFixed print exactly `%.{p}f` / its stripped form. -/
+theorem format_eq_spec_short_fractions (pre : List Nat) (bits p f : Nat) (hf : f = 1 ∨ f = 2) (hp : p ≤ 40)
+    (hfin : (bits / 2 ^ 52) % 2 ^ 11 ≠ 2 ^ 11 - 1) (h0 : 0 < fracBits64 bits) (hle : fracBits64 bits ≤ p) :
+    realToString f64 pre bits p f = .ok (pre ++ FmtSpec.format64 bits p (specFmt f)) :=
+  Qentem.Proofs.NumToStr.short_fraction64 pre bits p f hf hp hfin h0 hle
+
+/-- non-vacuity: 0.375 has 3 fraction bits, -1234.5625 has 4 -/
+example : fracBits64 0x3FD8000000000000 = 3 ∧ fracBits64 0xC0934A4000000000 = 4 := by decide
+example : realToString f64 [] 0xC0934A4000000000 6 fmtFixed =
+    .ok [45, 49, 50, 51, 52, 46, 53, 54, 50, 53, 48, 48] := by decide +kernel   -- -1234.562500
 
 /-- `format_eq_spec_partial`: `FormatEqSpec` restricted to the special classes.  The rest — every
 finite non-zero value — is open; see `notes/design-numtostr.md`. -/
